@@ -31,3 +31,33 @@ PROPS = {
     "C19": dict(runs=[("interp", 1600, 30000)], lean_module="Spade.Properties.C19"),
     "C20": dict(runs=[("refine", 1200, 20000)], lean_module="Spade.Properties.C20"),
 }
+
+# what is *not* proved for each property (decided per run by the verified checkers on the
+# implementation's dumped states, or not claimed), written into every evidence file
+PARTIAL = {
+    "C01": ["that the incremental / removal / bulk algorithms restore the empty-circumcircle property is decided per run (GloballyDelaunay evaluated on every dumped state); no theorem covers Lawson flipping or the circle sweep"],
+    "C02": ["LInv / CInv / WInv are proved for every insertion history of the model M under the decidable side condition insertSideOK for hull-extending and chain steps, which the driver evaluates on every compared insertion instead of proving it (needs hull convexity)",
+            "removal, constraint insertion, bulk loading, refinement: structural validity (links, ccw faces, tiling, Euler) is decided per run only; Tiles / area identity per run only"],
+    "C03": ["that add_constraint / remove / refine leave every free edge locally Delaunay is decided per run; proved on the model: legalisation never flips or unflags a constraint edge"],
+    "C04": ["that only the edges of the returned chain are newly flagged is not proved for the constraint-insertion model (the border walk may overwrite its result); add_constraint_and_split and CDT vertex removal are compared with the abstract machine per run only"],
+    "C05": ["map semantics are proved on the abstract machine and the vertex arrays of the insertion / removal models; the implementation is compared after every step (R1, R3)"],
+    "C06": ["the contract of the external crate `robust` (sign of the exact determinant) is assumed and validated per run on adversarial tuples; float formulas outside the decision functions are not covered"],
+    "C07": ["termination and absence of panics of the real code can only be observed (watchdog, catch_unwind on every call); the theorems are termination measures of the modelled loops"],
+    "C08": ["unchanged-on-error of the loaders is decided per run (invalid mode)"],
+    "C09": ["soundness of every locate answer is proved for the model in every state satisfying WInv (hence after every insertion history of M); for states reached through removal, constraints, bulk loading or refinement the implementation's answers are judged per run; fuel sufficiency of the walk (termination) is not proved"],
+    "C10": ["equality of bulk-loaded and incrementally built triangulations is decided per run against the abstract machine and the full state spec; the sweep itself has no model (only the re-ordering tail of bulk_load_stable)"],
+    "C11": ["no structural invariant is proved for the removal model (only: the vertex arrays change by one swap_remove); the state after every removal is judged per run; CDT removal with incident constraints is finding K3"],
+    "C12": ["exactness of can_add_constraint with respect to proper crossings is decided per run against the abstract machine; proved on the model: refusal iff the Cancel exit, refused calls change nothing"],
+    "C13": ["floating point split positions: every clause about add_constraint_and_split is decided per run within a rounding band on well-conditioned families; ill-conditioned regimes are findings K6, K8, K12, K15-K19"],
+    "C14": ["convexity of the hull after each operation is decided per run; proved: the hull iterator model yields each outer half-edge once as a closed chain in every consistent state"],
+    "C15": ["minimality of the implementation's answers is decided per run (exact on integer families, relative slack elsewhere); proved: the walk model stops at a local minimum"],
+    "C16": ["the traversal of the flood-fill iterators (exactly once, connectivity) is decided per run; the circle metric is a float distance judged with a slack; proved: the rectangle metric's edge and vertex tests are exactly 'has a common point' / 'lies in the closed rectangle'"],
+    "C17": ["completeness and order of the iteration (every crossed element, once, in line order) are decided per run; proved: step soundness of the model in every state with the link invariant, exactness of the collinear coordinate tests"],
+    "C18": ["rounding of the float circumcentre (judged per run with a conditioning-scaled tolerance on well-scaled families); 'the cell encloses exactly the points having this site as nearest neighbour' is not proved"],
+    "C19": ["weights are judged per run as exact dyadics (sign, sum, reproduction) on well-conditioned faces; the Sibson area formulas have no model"],
+    "C20": ["refinement has no model: every clause (old vertices fixed, budget, coverage of constraints, excluded faces, angle / area bounds under the stated preconditions) is decided per run; proved: the encroachment test, the ratio algebra, optimality of the even-layer certificate"],
+}
+COMMON_ASSUMPTIONS = [
+    "robust::orient2d / robust::incircle return a value whose sign is the sign of the exact determinant for coordinates in the validated range (external crate, not verified; validated per run by the C06 correspondence)",
+    "the Rust harness dumps the state faithfully through the public API and the Lean compiler executes the driver according to the definitions the theorems are about",
+]
